@@ -79,6 +79,10 @@ type interpreter struct {
 	model         map[string]uint64
 	memo          map[*Term]uint64
 	impliedCache  map[*Term]int
+	symbolicRand  bool
+	pcHard        int
+	scopeHard     []int
+	randCtr       int
 }
 
 type deferred struct {
